@@ -522,7 +522,7 @@ def thread_work(shard, tier, viols, counters, samples, keys, sets):
                     plan.insert(0, [s for s in group if s['func'] == 'number_module_names'][0])
                 plans.append(plan)
         spec = {'seed': '%d:%s:%d' % (C.SEED, shard['name'], t), 'nthreads': n, 'plans': plans,
-                'yieldp': rng.choice((0.0, 0.01, 0.05, 0.2))}
+                'yieldp': rng.choice((0.0, 0.01, 0.05, 0.2)), 'preimport_country_modules': not walk_family}
         with tempfile.NamedTemporaryFile('w', suffix='.json', delete=False, dir=C.scratch_dir('C13')) as f:
             json.dump(spec, f)
             path = f.name
